@@ -241,4 +241,179 @@ theorem foldRel (rows cols : Nat) (mask : Array Bool) (i : Nat) (ds : List (Int 
           exact hc k hk hmk
         · exact R.complete d' e k hk hmk
 
+
+/-! ## the graph: set pixels inside the box, joined along the offsets of `neigh` -/
+
+/-- a vertex: a flat index inside the box whose mask entry is set -/
+def IsV (rows cols : Nat) (mask : Array Bool) (k : Nat) : Prop := k < rows * cols ∧ mk mask k = true
+
+/-- `j`'s (row, column) is `i`'s (row, column) plus an offset of `neigh conn8`, inside the box -/
+def adjIdx (rows cols : Nat) (conn8 : Bool) (i j : Nat) : Prop := ∃ d ∈ neigh conn8, tgt rows cols i d = some j
+
+/-- an edge of the graph -/
+def istep (rows cols : Nat) (mask : Array Bool) (conn8 : Bool) (a b : Nat) : Prop :=
+  IsV rows cols mask a ∧ IsV rows cols mask b ∧ adjIdx rows cols conn8 a b
+
+/-- connected inside the mask -/
+def IConn (rows cols : Nat) (mask : Array Bool) (conn8 : Bool) : Nat → Nat → Prop :=
+  Relation.ReflTransGen (istep rows cols mask conn8)
+
+theorem neigh_neg (c : Bool) : ∀ d ∈ neigh c, (-d.1, -d.2) ∈ neigh c := by
+  cases c <;> decide
+
+theorem adjIdx_symm {rows cols : Nat} {conn8 : Bool} {i j : Nat} (hi : i < rows * cols)
+    (h : adjIdx rows cols conn8 i j) : adjIdx rows cols conn8 j i := by
+  obtain ⟨d, hd, ht⟩ := h
+  refine ⟨(-d.1, -d.2), neigh_neg conn8 d hd, ?_⟩
+  unfold tgt at ht
+  split at ht
+  · rename_i hb
+    obtain ⟨h0, h1, h2, h3⟩ := hb
+    injection ht with ht
+    subst ht
+    have cpos : 0 < cols := by omega
+    have hr : i / cols < rows := Nat.div_lt_of_lt_mul (by rw [Nat.mul_comm]; exact hi)
+    have hc : i % cols < cols := Nat.mod_lt _ cpos
+    have hdm : i / cols * cols + i % cols = i := Nat.div_add_mod' i cols
+    generalize i / cols = q at *
+    generalize i % cols = r at *
+    obtain ⟨a, ha⟩ : ∃ a : Nat, (a : Int) = (q : Int) + d.1 := ⟨_, Int.toNat_of_nonneg h0⟩
+    obtain ⟨b, hb⟩ : ∃ b : Nat, (b : Int) = (r : Int) + d.2 := ⟨_, Int.toNat_of_nonneg h2⟩
+    rw [← ha, ← hb, Int.toNat_natCast, Int.toNat_natCast]
+    have hbl : b < cols := by omega
+    have e3 : ((a : Int) + -d.1).toNat = q := by omega
+    have e4 : ((b : Int) + -d.2).toNat = r := by omega
+    have hcond : 0 ≤ (a : Int) + -d.1 ∧ (a : Int) + -d.1 < (rows : Int) ∧
+        0 ≤ (b : Int) + -d.2 ∧ (b : Int) + -d.2 < (cols : Int) := by omega
+    have e1 : (a * cols + b) / cols = a := by
+      rw [Nat.mul_comm, Nat.mul_add_div cpos, Nat.div_eq_of_lt hbl, Nat.add_zero]
+    have e2 : (a * cols + b) % cols = b := by
+      rw [Nat.mul_comm, Nat.mul_add_mod, Nat.mod_eq_of_lt hbl]
+    unfold tgt
+    simp only [e1, e2]
+    rw [if_pos hcond, e3, e4, hdm]
+  · cases ht
+
+theorem IConn.symm {rows cols : Nat} {mask : Array Bool} {conn8 : Bool} {a b : Nat}
+    (h : IConn rows cols mask conn8 a b) : IConn rows cols mask conn8 b a := by
+  induction h with
+  | refl => exact Relation.ReflTransGen.refl
+  | tail _ hbc ih =>
+    exact Relation.ReflTransGen.head ⟨hbc.2.1, hbc.1, adjIdx_symm hbc.1.1 hbc.2.2⟩ ih
+
+theorem IConn.isV {rows cols : Nat} {mask : Array Bool} {conn8 : Bool} {a b : Nat}
+    (h : IConn rows cols mask conn8 a b) (ha : IsV rows cols mask a) : IsV rows cols mask b := by
+  cases h with
+  | refl => exact ha
+  | tail _ hbc => exact hbc.2.1
+
+/-! ## the loop invariant of `flood` -/
+
+structure Inv (rows cols : Nat) (mask : Array Bool) (conn8 : Bool) (S0 : Nat → Prop) (seed : Nat)
+    (st : List Nat) (seen : Array Bool) (tb : Bool) : Prop where
+  sd : sn seen seed = true
+  stk : ∀ k ∈ st, IsV rows cols mask k ∧ sn seen k = true ∧ ¬ S0 k ∧ IConn rows cols mask conn8 seed k
+  snd : ∀ k, sn seen k = true → S0 k ∨ IConn rows cols mask conn8 seed k
+  mono : ∀ k, S0 k → sn seen k = true
+  closed : ∀ k, sn seen k = true → ¬ S0 k → k ∉ st →
+    ∀ j, adjIdx rows cols conn8 k j → IsV rows cols mask j → sn seen j = true
+  tbs : tb = true → ∃ k, sn seen k = true ∧ ¬ S0 k ∧ bdr rows cols k = true
+  tbc : ∀ k, sn seen k = true → ¬ S0 k → k ∉ st → bdr rows cols k = true → tb = true
+
+theorem Inv.step {rows cols : Nat} {mask : Array Bool} {conn8 : Bool} {S0 : Nat → Prop} {seed i : Nat}
+    {st : List Nat} {seen : Array Bool} {tb : Bool} (I : Inv rows cols mask conn8 S0 seed (i :: st) seen tb) :
+    Inv rows cols mask conn8 S0 seed ((neigh conn8).foldl (pushF rows cols mask i) (st, seen)).1
+      ((neigh conn8).foldl (pushF rows cols mask i) (st, seen)).2 (tb || bdr rows cols i) := by
+  have R := foldRel rows cols mask i (neigh conn8) st seen
+  generalize (neigh conn8).foldl (pushF rows cols mask i) (st, seen) = r at R ⊢
+  obtain ⟨hVi, hsi, hS0i, hci⟩ := I.stk i List.mem_cons_self
+  have hnew : ∀ k, sn r.2 k = true → sn seen k = false →
+      IsV rows cols mask k ∧ ¬ S0 k ∧ IConn rows cols mask conn8 seed k := by
+    intro k h1 h2
+    rcases R.new k h1 with h | ⟨hm, d, hd, ht⟩
+    · rw [h] at h2; cases h2
+    · have hV : IsV rows cols mask k := ⟨tgt_lt ht, hm⟩
+      refine ⟨hV, ?_, Relation.ReflTransGen.tail hci ⟨hVi, hV, d, hd, ht⟩⟩
+      intro h0
+      rw [I.mono k h0] at h2; cases h2
+  have hold : ∀ k, sn r.2 k = true → k ∉ r.1 → k ∉ st ∧ sn seen k = true := by
+    intro k h1 h2
+    rw [R.stack k] at h2
+    refine ⟨fun h => h2 (Or.inl h), ?_⟩
+    cases hs : sn seen k with
+    | true => rfl
+    | false => exact absurd (Or.inr ⟨h1, hs⟩) h2
+  refine ⟨R.mono _ I.sd, ?_, ?_, fun k h => R.mono k (I.mono k h), ?_, ?_, ?_⟩
+  · intro k hk
+    rcases (R.stack k).mp hk with h | ⟨h1, h2⟩
+    · obtain ⟨a, b, c, d⟩ := I.stk k (List.mem_cons_of_mem _ h)
+      exact ⟨a, R.mono k b, c, d⟩
+    · obtain ⟨a, c, d⟩ := hnew k h1 h2
+      exact ⟨a, h1, c, d⟩
+  · intro k hk
+    cases hs : sn seen k with
+    | true => exact I.snd k hs
+    | false => exact Or.inr (hnew k hk hs).2.2
+  · intro k h1 h2 h3 j hadj hVj
+    obtain ⟨h4, h5⟩ := hold k h1 h3
+    by_cases hki : k = i
+    · subst hki
+      obtain ⟨d, hd, ht⟩ := hadj
+      exact R.complete d hd j ht hVj.2
+    · apply R.mono
+      refine I.closed k h5 h2 ?_ j hadj hVj
+      intro hmem
+      rcases List.mem_cons.mp hmem with e | e
+      · exact hki e
+      · exact h4 e
+  · intro h
+    rw [Bool.or_eq_true] at h
+    rcases h with h | h
+    · obtain ⟨k, a, b, c⟩ := I.tbs h
+      exact ⟨k, R.mono k a, b, c⟩
+    · exact ⟨i, R.mono i hsi, hS0i, h⟩
+  · intro k h1 h2 h3 hb
+    obtain ⟨h4, h5⟩ := hold k h1 h3
+    rw [Bool.or_eq_true]
+    by_cases hki : k = i
+    · subst hki
+      exact Or.inr hb
+    · left
+      refine I.tbc k h5 h2 ?_ hb
+      intro hmem
+      rcases List.mem_cons.mp hmem with e | e
+      · exact hki e
+      · exact h4 e
+
+theorem Inv.step_meas (rows cols : Nat) (mask : Array Bool) (conn8 : Bool) (i : Nat) (st : List Nat)
+    (seen : Array Bool) :
+    ((neigh conn8).foldl (pushF rows cols mask i) (st, seen)).1.length +
+      U (rows * cols) mask ((neigh conn8).foldl (pushF rows cols mask i) (st, seen)).2 ≤
+      st.length + U (rows * cols) mask seen :=
+  (foldRel rows cols mask i (neigh conn8) st seen).meas
+
+/-- with enough fuel the flood ends with an empty stack and the invariant -/
+theorem flood_inv {rows cols : Nat} {mask : Array Bool} {conn8 : Bool} {S0 : Nat → Prop} {seed : Nat} :
+    ∀ (fuel : Nat) (st : List Nat) (seen : Array Bool) (tb : Bool),
+      Inv rows cols mask conn8 S0 seed st seen tb → st.length + U (rows * cols) mask seen ≤ fuel →
+      Inv rows cols mask conn8 S0 seed [] (flood rows cols mask conn8 fuel st seen tb).1
+        (flood rows cols mask conn8 fuel st seen tb).2 := by
+  intro fuel
+  induction fuel with
+  | zero =>
+    intro st seen tb I h
+    have : st = [] := List.length_eq_zero_iff.mp (by omega)
+    subst this
+    rw [flood_zero]; exact I
+  | succ fuel ih =>
+    intro st seen tb I h
+    cases st with
+    | nil => rw [flood_nil]; exact I
+    | cons i st =>
+      rw [flood_cons]
+      apply ih _ _ _ I.step
+      have := Inv.step_meas rows cols mask conn8 i st seen
+      simp only [List.length_cons] at h
+      omega
+
 end Mahotas.C15
